@@ -99,7 +99,7 @@ func (tf *typeFormatter) formatReference(def ast.RefType) string {
 
 		return tf.formatArray(object.Type.AsArray())
 	default:
-		tf.packageMapper(def.ReferredPkg, def.ReferredType)
+		tf.packageMapper(def.ReferredPkg, formatObjectName(def.ReferredType))
 		return formatObjectName(def.ReferredType)
 	}
 }
@@ -349,14 +349,14 @@ func (tf *typeFormatter) formatDisjunctionValue(object ast.Object, value any) st
 		return fmt.Sprintf("%#v", value)
 	}
 
-	tf.packageMapper(object.SelfRef.ReferredPkg, object.SelfRef.ReferredType)
-	return fmt.Sprintf("%s.create%s(%#v)", object.SelfRef.ReferredType, tools.UpperCamelCase(field.Name), value)
+	tf.packageMapper(object.SelfRef.ReferredPkg, formatObjectName(object.SelfRef.ReferredType))
+	return fmt.Sprintf("%s.create%s(%#v)", formatObjectName(object.SelfRef.ReferredType), tools.UpperCamelCase(field.Name), value)
 }
 
 func (tf *typeFormatter) formatEnumValue(obj ast.Object, val any) string {
 	member, _ := obj.Type.AsEnum().MemberForValue(val)
 
-	return fmt.Sprintf("%s.%s", obj.Name, tools.UpperSnakeCase(member.Name))
+	return fmt.Sprintf("%s.%s", formatObjectName(obj.Name), tools.UpperSnakeCase(member.Name))
 }
 
 func (tf *typeFormatter) objectNeedsCustomSerializer(obj ast.Object) bool {
@@ -443,11 +443,11 @@ func (tf *typeFormatter) enumFromConstantRef(def ast.ConstantReferenceType) stri
 			return "unknown"
 		}
 
-		if refPkg := tf.packageMapper(def.ReferredPkg, def.ReferredType); refPkg != "" {
+		if refPkg := tf.packageMapper(def.ReferredPkg, formatObjectName(def.ReferredType)); refPkg != "" {
 			return fmt.Sprintf("%s.%s.%s", refPkg, def.ReferredType, enumVale.Name)
 		}
 
-		return fmt.Sprintf("%s.%s", def.ReferredType, tools.UpperSnakeCase(enumVale.Name))
+		return fmt.Sprintf("%s.%s", formatObjectName(def.ReferredType), tools.UpperSnakeCase(enumVale.Name))
 	}
 
 	return "unknown"
